@@ -75,6 +75,7 @@ pub fn bfs_tree<K: Kit>(
                 let mut lrep = Report::new();
                 let mut outs = Vec::new();
                 for &l in letters {
+                    crate::explore::watch_desc(|| format!("{{\"scenario\": {:?}, \"hist\": {:?}, \"letter\": {l}}}", sc.tag, hist));
                     let run = guarded(|| {
                         let mut rig = Rig::<K>::new(sc, true);
                         rig.logging(true);
@@ -204,6 +205,7 @@ pub fn bfs_prm<K: Kit>(
                 for &l in letters {
                     let mut h2 = hist.clone();
                     h2.push(l);
+                    crate::explore::watch_desc(|| format!("{{\"scenario\": {:?}, \"samples\": {:?}}}", sc.tag, h2));
                     let run = guarded(|| {
                         let mut rig = Rig::<K>::new(sc, true);
                         rig.logging(true);
